@@ -176,6 +176,7 @@ def judge(req, w, s, wt, bt):
         pu = (ifm_depth / (-(-ifm_depth // 8) * 8)) * (ksz / (-(-ksz // (4 if bits == 8 else 2)) * (4 if bits == 8 else 2)))
         part = pu >= du or ifm_depth <= 8
     prev_end = 0
+    s_prev_end = 0
     expected_keys = []
     sl = req["slices"]
     sizes_by_parity = [0, 0]
@@ -223,6 +224,17 @@ def judge(req, w, s, wt, bt):
                         if (m, sh) != (em, esh):
                             probs.append("channel %d: (multiplier, shift) record (%d, %d), reference derivation gives (%d, %d)" % (ch, m, sh, em, esh))
                             break
+                if s is not None:
+                    # a stand-alone scale tensor: the hardware is programmed with the 16-byte-rounded section length from a 16-byte
+                    # aligned start, so sections must be aligned, in order and must not run into the next one or past the buffer
+                    rounded = -(-ssb // 16) * 16
+                    if soff % 16:
+                        probs.append("scale range (core %d, slice %d) of the stand-alone scale tensor starts at %d: not 16-byte aligned" % (c, d0, soff))
+                    if soff < s_prev_end:
+                        probs.append("scale range (core %d, slice %d) at %d overlaps the previous scale section, which extends (rounded to 16) to %d" % (c, d0, soff, s_prev_end))
+                    if soff + rounded > len(sbuf):
+                        probs.append("scale section %d..%d (rounded to 16) of (core %d, slice %d) exceeds the scale tensor of %d bytes" % (soff, soff + rounded, c, d0, len(sbuf)))
+                    s_prev_end = max(s_prev_end, soff + rounded)
                 if s is None and wo != -(-ssb // 16) * 16:
                     probs.append("weight section of (core %d, slice %d) starts %d bytes after the range start; scale section padded to 16 is %d" % (c, d0, wo, -(-ssb // 16) * 16))
             # weight section
@@ -282,6 +294,15 @@ def history_alphabet():
     A.append(("bias1_full", dict(base, slices=[0, 64], bseed=1)))
     A.append(("bias1_s16x4", dict(base, slices=[0, 16, 32, 48, 64], bseed=1)))
     A.append(("u65_s16x4", dict(base, slices=[0, 16, 32, 48, 64], acc="ethos-u65-512")))
+    # a second weight tensor whose (core, slice) channel counts are not multiples of 8 (scale sections need padding to 16 bytes):
+    # the second request of a pair hits the weight cache and only its scales are encoded afresh
+    b2 = dict(base, depth=40, wseed=9, k=(1, 1), ic=16)
+    A.append(("d40_u65", dict(b2, slices=[0, 16, 40], acc="ethos-u65-512")))
+    A.append(("d40_u65_bias1", dict(b2, slices=[0, 16, 40], acc="ethos-u65-512", bseed=1)))
+    A.append(("d40_u65_full_bias1", dict(b2, slices=[0, 40], acc="ethos-u65-512", bseed=1)))
+    A.append(("d40_u65_full", dict(b2, slices=[0, 40], acc="ethos-u65-512")))
+    A.append(("d40_s20x2_bias1", dict(b2, slices=[0, 20, 40], bseed=1)))
+    A.append(("d40_s20x2", dict(b2, slices=[0, 20, 40])))
     return A
 
 
